@@ -12,14 +12,15 @@
 From Coq Require Import List NArith ZArith Bool Arith.
 Import ListNotations.
 From V Require Import Base.Prelude Base.TplRes Gen.Tokens.
+Local Open Scope nat_scope.
 
 Record tokn := mkT { ttok : Z; tlit : str; tpos : Z }.
 
 (* types.Token.End: Pos + len(Lit), or Pos + Tok.Len() when Lit is empty (translated Token.Len) *)
 Definition tok_end (t : tokn) : M Z :=
   match tlit t with
-  | [] => n <- tpl_Len (ttok t) ;; ret (tpos t + n)%Z
-  | l => ret (tpos t + zlen l)%Z
+  | [] => match tpl_Len (ttok t) with Ok n => Ok (tpos t + n)%Z | _ => Panic end   (* Len is loop-free: no fuel *)
+  | l => Ok (tpos t + zlen l)%Z
   end.
 
 Inductive m :=
